@@ -370,6 +370,29 @@ def _sweep(rep, pp):
                 check("S.T.T is observationally equal to S including the transposed flag", "transposed flag",
                       lambda: np.array([float(S.T._is_transposed), float(S.T.T._is_transposed)]), np.array([1.0, 0.0]), inp)
             check("frame: S @ x repeated gives the same result", "repeat", lambda: S @ x, P @ x, inp)
+            # the other documented constructor forms: sizes left out (inferred as max index + 1), only one index set given (the other one
+            # is 0..q-1); the projection matrix follows from the effective index sets and sizes
+            dom, ran = np.array(d[0]), np.array(d[1])
+            q = dom.size
+            forms = [("sizes inferred", dict(domain_indices=dom, range_indices=ran), dom, ran, int(dom.max()) + 1, int(ran.max()) + 1),
+                     ("range size inferred", dict(domain_indices=dom, range_indices=ran, domain_size=ds), dom, ran, ds, int(ran.max()) + 1),
+                     ("only domain indices", dict(domain_indices=dom, domain_size=ds), dom, np.arange(q), ds, q),
+                     ("only range indices", dict(range_indices=ran, range_size=rs), np.arange(q), ran, q, rs)]
+            for fname, kw, de, re_, dse, rse in forms:
+                Pe = np.zeros((rse, dse))
+                Pe[re_, de] = 1
+                xe = np.array([rng.uniform(1, 2) for _ in range(dse)])
+                Ae = np.array([[rng.choice([0.0, 0.0, 1.5, -2.0]) for _ in range(3)] for _ in range(dse)])
+                inpe = {"slicer": d, "form": fname}
+                try:
+                    Se = AS(**kw)
+                except Exception as e:  # noqa
+                    rep.violation("ArraySlicer can be constructed from admissible index sets", f"constructor ({fname}) raises {type(e).__name__}", inputs=inpe, detail=str(e)[:200])
+                    continue
+                sw.case((repr(d), fname), nontrivial=True)
+                check("S @ vector == Pmat(S) @ vector", f"vector, constructor form: {fname}", lambda: Se @ xe, Pe @ xe, inpe)
+                check("S @ sparse == Pmat(S) @ matrix", f"sparse csr, constructor form: {fname}", lambda: Se @ sps.csr_matrix(Ae), Pe @ Ae, inpe)
+                check("S @ AdArray Jacobian", f"AdArray, constructor form: {fname}", lambda: (Se @ pp.ad.AdArray(xe.copy(), sps.csr_matrix(Ae))).jac, Pe @ Ae, inpe)
         # chains and pending operations
         nchain = 300 if quick else 3000
         pm = lambda d: _pm(d)
